@@ -277,6 +277,14 @@ func runConc(payload string) string {
 					} else {
 						got = w.job(w.atlC, j.kind, j.i, nil, nil, nil) // package-level helpers (fresh instances)
 					}
+					if k == 0 && round == 0 {
+						// the atlas-less package-level helper too, on a plain value
+						src := map[string][]int{"a": {1, 2, g}, "b": nil}
+						var dst map[string][]int
+						if err := refmt.Clone(src, &dst); err != nil || len(dst) != 2 || len(dst["a"]) != 3 || dst["a"][2] != g {
+							got = fmt.Sprintf("refmt.Clone of a plain map gave %v (err %v)", dst, err)
+						}
+					}
 					if got != seq[k] {
 						mu.Lock()
 						if diff == "" {
